@@ -211,6 +211,20 @@ def history(ctx, rng, desc, hid):
                 if p is not None:
                     exp.pdo_period[which] = p
                 exp.pdo[which] = (bytes(maps[which].data), exp.pdo_period[which])
+            elif r < 0.385 and exp.pdo[rng.choice(["local", "remote"])] is not None:
+                # the payload returns to an earlier one across a stop/start: A (running), stop, B, start, A again
+                which = "local" if exp.pdo["local"] is not None else "remote"
+                var = rng.choice(list(maps[which]))
+                lo, hi = R.int_range(var.od.data_type)
+                a, b = rng.sample([0, 1, hi, lo], 2)
+                ops.append(("pdo.payload-recurs-across-restart", which, var.name, a, b))
+                ctx.case(("pdo.payload-recurs-across-restart", flavour, direction), nontrivial=True)
+                var.raw = a
+                maps[which].stop()
+                var.raw = b
+                maps[which].start(exp.pdo_period[which])
+                var.raw = a
+                exp.pdo[which] = (bytes(maps[which].data), exp.pdo_period[which])
             elif r < 0.4:
                 which = rng.choice(["local", "remote"])
                 ops.append(("pdo.stop", which))
@@ -221,7 +235,7 @@ def history(ctx, rng, desc, hid):
                 which = rng.choice(["local", "remote"])
                 var = rng.choice(list(maps[which]))
                 lo, hi = R.int_range(var.od.data_type)
-                v = rng.randint(lo, hi)
+                v = rng.randint(lo, hi) if rng.random() < 0.4 else rng.choice([0, 1, hi])     # payloads recur (A, B, A, ...)
                 ops.append(("pdo.assign", which, var.name, v))
                 ctx.case(("pdo.assign", exp.pdo[which] is not None, flavour), nontrivial=exp.pdo[which] is not None)
                 var.raw = v
@@ -245,6 +259,20 @@ def history(ctx, rng, desc, hid):
                     remote.sdo[0x1017].raw = t
                 exp.od_ms = t
                 exp.hb = t / 1000.0 if t > 0 else None
+            elif r < 0.68:
+                # a write to the heartbeat time object that the node refuses (wrong length) changes nothing
+                t = rng.choice([0, 50, 1000])
+                via = rng.choice(["local", "bus"])
+                nbytes = rng.choice([1, 3, 4])
+                data = (t & ((1 << 8 * nbytes) - 1)).to_bytes(nbytes, "little")
+                ops.append(("refused-write-0x1017", via, data.hex()))
+                ctx.case(("hb.refused-write", exp.hb is not None, t == 0, via, flavour), nontrivial=True)
+                from canopen.sdo.exceptions import SdoAbortedError
+                try:
+                    (local.sdo if via == "local" else remote.sdo).download(0x1017, 0, data)
+                    ctx.violation("wrong-length-write-accepted:0x1017", f"a {len(data)}-byte write to the UNSIGNED16 heartbeat time was accepted", case())
+                except SdoAbortedError:
+                    pass
             elif r < 0.74:
                 name = rng.choice(sorted(NAME_CMD))
                 ops.append(("slave.state", name))
